@@ -198,11 +198,24 @@ static void check_vs_ref(const c12_grid *g, const timg *m, const int *bg, const 
         vf_violation("c12-wrong-count", "%s: pixel (%d,%d) got %d, ideal %d, one-ulp window [%d,%d] (before saturation, background %d); %s; got %s ideal %s",
                      what, px, py, timg_get(m, px, py), rc->ideal[i], rc->lo[i], rc->hi[i], bg ? bg[i] : 0, desc, timg_str(m, a, sizeof a),
                      arr_str(rc->ideal, m->W, m->H, m->bpp, b, sizeof b));
-    else
+    else {
+        /* inside the window: attributed to the recorded finding only if it is exactly what that finding produces (c12_rep_trap) */
+        if (rc->have_rep) {
+            for (int y = 0; y < m->H; y++) for (int x = 0; x < m->W; x++) {
+                int k = y * m->W + x, bb = bg ? bg[k] : 0;
+                if (timg_get(m, x, y) != sat_expect(g, bb, rc->rep[k])) {
+                    vf_violation("c12-edge-position-unexplained", "%s: pixel (%d,%d) got %d, ideal %d, and the recorded edge-position finding (error term of a carry-less first jump not stored) gives %d: "
+                                 "inside the one-ulp window but a different departure (background %d); %s; got %s ideal %s", what, x, y, timg_get(m, x, y), rc->ideal[k], rc->rep[k], bb, desc,
+                                 timg_str(m, a, sizeof a), arr_str(rc->ideal, m->W, m->H, m->bpp, b, sizeof b));
+                    return;
+                }
+            }
+        }
         soft(r, "%s: pixel (%d,%d) got %d, ideal %d, one-ulp window [%d,%d]%s (background %d); %s; got %s ideal %s lo %s hi %s", what, px, py,
              timg_get(m, px, py), rc->ideal[i], rc->lo[i], rc->hi[i], r == 2 ? " - outside it, inside the two-ulp window" : "", bg ? bg[i] : 0, desc,
              timg_str(m, a, sizeof a), arr_str(rc->ideal, m->W, m->H, m->bpp, b, sizeof b),
              arr_str(rc->lo, m->W, m->H, m->bpp, c, sizeof c), arr_str(rc->hi, m->W, m->H, m->bpp, d, sizeof d));
+    }
 }
 
 /* metamorphic equality a == b.  strict: any difference is a violation under `key`.  Otherwise a difference is the edge-position
@@ -360,6 +373,7 @@ static void ras_case(uint64_t idx, void *vctx)
     timg_reset(&A, bg);
     pixman_rasterize_trapezoid(A.pi, &T, 0, 0); vf_count_libcalls(1);
     c12_ref_trap(g, W, H, &T, 0, 0, &rc);
+    rc.have_rep = c12_rep_trap(g, W, H, &T, 0, 0, rc.rep);
     if (vf_verbose) { char a[700], b[500], l[500], h[500]; printf("  got   %s\n  ideal %s\n  lo    %s\n  hi    %s\n", timg_str(&A, a, sizeof a), arr_str(ideal, W, H, c->bpp, b, sizeof b), arr_str(lo, W, H, c->bpp, l, sizeof l), arr_str(hi, W, H, c->bpp, h, sizeof h)); }
     check_vs_ref(g, &A, bg, &rc, "rasterize_trapezoid vs ideal sample count", desc);
 
@@ -446,6 +460,7 @@ static void off_case(uint64_t idx, void *vctx)
     timg A, B; timg_init(&A, c->fmt, W, H); timg_init(&B, c->fmt, W, H);
     pixman_rasterize_trapezoid(A.pi, &T, ox, oy); vf_count_libcalls(1);
     c12_ref_trap(g, W, H, &T, ox, oy, &rc);
+    rc.have_rep = c12_rep_trap(g, W, H, &T, ox, oy, rc.rep);
     check_vs_ref(g, &A, NULL, &rc, "rasterize_trapezoid with x_off/y_off vs ideal sample count", desc);
     /* offsets applied to the geometry instead */
     {
@@ -878,6 +893,43 @@ static void multi_run(const char *name, multi *m)
     vf_space_run(name, N, multi_case, m);
 }
 
+/* (7) edges with exactly representable slopes: the error term of such an edge becomes exactly 0 on some rows (the edge passes through a
+ * point of the 16.16 grid), which is where "carry when positive" and "carry when not negative" part; every sub-pixel position of the
+ * starting point, so that on some row a sample column lies exactly there. */
+static const int ES_NUM[6] = { -1, -1, 1, 1, 1, 2 }, ES_DEN[6] = { 1, 2, 2, 3, 1, 1 };
+static void exact_slope_case(uint64_t idx, void *vctx)
+{
+    (void)vctx;
+    int f = (int)(idx & 0xffff), si = (int)((idx >> 16) % 6), bi = (int)((idx >> 16) / 6);
+    static const int bpps[3] = { 1, 4, 8 }; static const pixman_format_code_t fm[3] = { PIXMAN_a1, PIXMAN_a4, PIXMAN_a8 };
+    c12_grid g = c12_mkgrid(bpps[bi]);
+    enum { W = 8, H = 2 };
+    int32_t dy = 3 * 65536, dxl = (int32_t)((int64_t)ES_NUM[si] * dy / ES_DEN[si]);
+    int32_t x0 = (ES_NUM[si] < 0 ? 3 * 65536 : 0) + f;
+    pixman_trapezoid_t T; T.top = 0; T.bottom = H * 65536;
+    T.left.p1.x = x0; T.left.p1.y = 0; T.left.p2.x = x0 + dxl; T.left.p2.y = dy;
+    T.right.p1.x = W * 65536; T.right.p1.y = 0; T.right.p2.x = W * 65536; T.right.p2.y = dy;
+    c12_counts rc; memset(&rc, 0, sizeof rc);
+    G.kind = 0; G.bpp = bpps[bi]; G.W = W; G.H = H; G.bg = 0; G.T = T; g_desc_ok = 0;
+    soft_set = 0;
+    timg *pA = timg_cached(0, fm[bi], W, H);
+    timg_reset(pA, NULL);
+    pixman_rasterize_trapezoid(pA->pi, &T, 0, 0); vf_count_libcalls(1);
+    c12_ref_trap(&g, W, H, &T, 0, 0, &rc);
+    rc.have_rep = c12_rep_trap(&g, W, H, &T, 0, 0, rc.rep);
+    check_vs_ref(&g, pA, NULL, &rc, "rasterize_trapezoid (left edge of exactly representable slope) vs ideal sample count", NULL);
+    /* the same shape cut at the pixel row boundary: the lower half starts from a freshly initialised edge */
+    if (!vf_failed()) {
+        timg *pB = timg_cached(1, fm[bi], W, H);
+        pixman_trapezoid_t T1 = T, T2 = T; T1.bottom = 65536; T2.top = 65536;
+        timg_reset(pB, NULL);
+        pixman_rasterize_trapezoid(pB->pi, &T1, 0, 0); pixman_rasterize_trapezoid(pB->pi, &T2, 0, 0); vf_count_libcalls(2);
+        check_same(&g, pA, pB, 0, NULL, &rc, "c12-hsplit-not-additive", "split at y=65536: whole (A) vs two halves (B)", NULL);
+    }
+    note_case(&g, pA, rc.ideal, NULL);
+    soft_flush();
+}
+
 /* (6) the public grid and edge functions.  sample_ceil_y(y) is the smallest grid row >= y, sample_floor_y(y) the largest grid row < y
  * (rows as derived in c12_ref.h); stepping an initialised edge by n equals initialising it n units lower. */
 #define GRID_WIN (3 * 65536)
@@ -1106,6 +1158,7 @@ int main(int argc, char **argv)
     }
     /* (6) public grid / edge functions */
     vf_space_run("public-sample-ceil-floor-y", 3ull * (2 * GRID_WIN + 1 + 140000), gridfn_case, NULL);
+    vf_space_run("exact-slope-edges-every-subpixel-start", 65536ull * 6 * 3, exact_slope_case, NULL);
     vf_space_run("public-edge-init-step", 7ull * 7 * 5 * 6 * 12 * 3, edgestep_case, NULL);
     /* (5) composite_trapezoids route independence */
     {
